@@ -580,3 +580,47 @@ func GetBits(v reflect.Value) uint64 {
 		return u
 	}
 }
+
+// Slot is the wire position of one integer leaf in an encoded command.
+type Slot struct {
+	Leaf   IntLeaf
+	Lo, Hi int
+}
+
+// FindSlots encodes c, then complements one integer leaf at a time and returns
+// the leaves whose change touches exactly one contiguous run of Width bytes.
+func FindSlots(c ci.CommandInterface, t reflect.Type) (base []byte, slots []Slot, ok bool) {
+	var err error
+	p, _, _ := mon.Guard(func() { base, err = c.Marshal() })
+	if p || err != nil {
+		return nil, nil, false
+	}
+	base = append([]byte{}, base...)
+	for _, lf := range IntLeaves(t) {
+		v := lf.Leaf(reflect.ValueOf(c).Elem())
+		orig := GetBits(v)
+		SetBits(v, ^orig)
+		var b []byte
+		p, _, _ := mon.Guard(func() { b, err = c.Marshal() })
+		SetBits(v, orig)
+		if p || err != nil || len(b) != len(base) {
+			continue
+		}
+		lo, hi, n := -1, -1, 0
+		for i := range b {
+			if b[i] != base[i] {
+				if lo < 0 {
+					lo = i
+				}
+				hi = i + 1
+				n++
+			}
+		}
+		if n == lf.Width && hi-lo == n {
+			slots = append(slots, Slot{Leaf: lf, Lo: lo, Hi: hi})
+		}
+	}
+	// restore the encoding state of c
+	mon.Guard(func() { c.Marshal() })
+	return base, slots, true
+}
